@@ -20,11 +20,14 @@ def include(rep, src, other_pid, rules, as_rule, clause):
     try:
         mod.check(src, sub)
     except Undecided as e:
-        rep.notes.append(f"{as_rule}: sibling analysis {other_pid} undecided ({str(e)[:80]}); clause '{clause}' not re-checked here")
+        rep.undecide(f"{as_rule} clause '{clause}' depends on the rule set of {other_pid}, which is undecided: {str(e)[:160]}")
         return
     finally:
         _ACTIVE.pop()
         _ACTIVE.pop()
+    for u in sub.undecided:
+        if rules is None or any(u.startswith(r + " ") for r in rules):
+            rep.undecide(f"{as_rule} clause '{clause}' depends on {other_pid}: {u[:200]}")
     n = 0
     for f in sub.findings:
         if rules is None or f.rule in rules:
